@@ -541,8 +541,183 @@ pub(super) fn run(case_line: &str, ctx: &mut Ctx) -> String {
     format!("identity={} ptr={ptr} frames={} {}", identity_line.unwrap_or_default(), n, out.join(" ")).trim_end().to_owned()
 }
 
+/// FNV-1a (64 bit): a 3 MB BATCH body is compared byte for byte through its length and this digest.
+fn fnv1a(b: &[u8]) -> u64 {
+    b.iter().fold(0xcbf29ce484222325u64, |h, x| (h ^ *x as u64).wrapping_mul(0x100000001b3))
+}
+
+/// `glueb <n> <mode u|p|m> <via s|c> <cons|N> <serial D|N|Serial|LocalSerial> <ts|N> <tracing 0|1> <ids>`:
+/// `Session::batch` (`via s`; `c` = `CachingSession::batch` on an all-prepared batch, which delegates) with exactly `n`
+/// statements — `u`: unprepared without values, `p`: the prepared INSERT with (pk, v), `m`: alternating p,u,p,... — around
+/// the 65535 boundary of the session's own guard (`session.rs:1039-1045`, in front of the serializer's `try_into::<u16>`).
+/// Output: `ok|err:TooManyQueries:<n>|err:refused frames=<k> [0d:<cons>:<serial|->:<tracing>:<ts|->:n=<statements the
+/// node parsed>:len=<body length>:fnv=<digest>]`.  Oracle (the property's text): n <= 65535 -> the call succeeds and the
+/// node sees ONE BATCH with exactly the n statements asked for, in order; n > 65535 -> an error and NO BATCH frame.
+pub(super) fn run_b(case_line: &str, ctx: &mut Ctx) -> String {
+    let w: Vec<&str> = case_line.split_whitespace().collect();
+    if w.len() != 9 || w[0] != "glueb" || w[8] != ids_token() {
+        return "bad-case".into();
+    }
+    let Some(n) = w[1].parse::<usize>().ok().filter(|n| *n <= 200000) else { return "bad-case".into() };
+    let mode = w[2].to_string();
+    let via = w[3].to_string();
+    if !["u", "p", "m"].contains(&mode.as_str()) || !(via == "s" || (via == "c" && mode == "p")) {
+        return "bad-case".into();
+    }
+    let cons: Option<Consistency> = if w[4] == "N" { None } else { match cons_tok(w[4]) { Some(c) => Some(c), None => return "bad-case".into() } };
+    let serial: Option<Option<SerialConsistency>> = match w[5] {
+        "D" => None,
+        s => match serial_opt(s) { Some(x) => Some(x), None => return "bad-case".into() },
+    };
+    let Some(ts) = opt_num::<i64>(w[6]) else { return "bad-case".into() };
+    let tracing = match w[7] { "0" => false, "1" => true, _ => return "bad-case".into() };
+    let is_prep = |i: usize| mode == "p" || (mode == "m" && i % 2 == 0);
+    let shape = Shape { nodes: 1, dcs: 1, racks: 1, shards: 0, msb: 12, vnodes: 2, strat: Strat::Simple(1), seed: 1 };
+    let handler: crate::mockcluster::ClusterHandler = Box::new(move |r: &Req| match &r.parsed {
+        Parsed::Prepare { text } => vec![Act::Respond(RESP_RESULT, crate::e2e::common::std_prepared(text))],
+        _ => vec![act_void()],
+    });
+    let rt = runtime(1);
+    let (mode2, via2) = (mode.clone(), via.clone());
+    let res: Result<(Vec<Req>, Result<(), String>), String> = rt.block_on(async move {
+        use scylla::client::caching_session::CachingSessionBuilder;
+        use scylla::value::CqlValue;
+        let is_prep = |i: usize| mode2 == "p" || (mode2 == "m" && i % 2 == 0);
+        let cluster = MockCluster::start(shape.topology(), handler).await;
+        let handle = profile(Consistency::LocalQuorum, Some(SerialConsistency::LocalSerial)).into_handle();
+        let session = connect(&cluster, move |b| b.default_execution_profile_handle(handle.clone())).await?;
+        let Ok(ps) = session.prepare(INSERT).await else { return Err("e2e-skip prepare-failed".to_string()) };
+        let mut b = SBatch::new(BatchType::Unlogged);
+        let mut rows: Vec<Vec<CqlValue>> = Vec::with_capacity(n);
+        for i in 0..n {
+            if is_prep(i) {
+                b.append_statement(ps.clone());
+                rows.push(vec![CqlValue::Blob(vec![1u8, 2]), CqlValue::Int(5)]);
+            } else {
+                b.append_statement(Statement::new(TEXT2));
+                rows.push(vec![]);
+            }
+        }
+        if let Some(c) = cons {
+            b.set_consistency(c);
+        }
+        if let Some(sc) = serial {
+            b.set_serial_consistency(sc);
+        }
+        b.set_timestamp(ts);
+        b.set_tracing(tracing);
+        let mark = cluster.frames().len();
+        let r = if via2 == "c" {
+            let caching = CachingSessionBuilder::new(session).max_capacity(8).build();
+            caching.batch(&b, &rows).await
+        } else {
+            session.batch(&b, &rows).await
+        };
+        let r = match r {
+            Ok(_) => Ok(()),
+            Err(scylla::errors::ExecutionError::BadQuery(scylla::errors::BadQuery::TooManyQueriesInBatchStatement(k))) => Err(format!("TooManyQueries:{k}")),
+            Err(_) => Err("refused".to_string()),
+        };
+        tokio::time::sleep(std::time::Duration::from_millis(2)).await;
+        Ok((cluster.frames().into_iter().skip(mark).filter(|f| !f.internal && f.opcode == 0x0D).collect(), r))
+    });
+    let (frames, r) = match res {
+        Ok(x) => x,
+        Err(skip) => return skip,
+    };
+    // ---- the property's text: a representable batch is sent whole, an oversize one is refused, nothing is truncated
+    if n <= 65535 {
+        if let Err(e) = &r {
+            ctx.fail(format!("Session::batch refused a batch of {n} statements ({e}); 65535 statements fit a v4 BATCH"));
+        }
+        if frames.len() != 1 {
+            ctx.fail(format!("Session::batch of {n} statements: the node saw {} BATCH frames, expected 1", frames.len()));
+        }
+    } else {
+        if r.is_ok() {
+            ctx.fail(format!("Session::batch accepted a batch of {n} statements (more than the u16 count of a v4 BATCH can say)"));
+        }
+        if !frames.is_empty() {
+            ctx.fail(format!("Session::batch of {n} statements (> 65535) put a BATCH frame on the wire"));
+        }
+    }
+    let want_id = crate::mocknode::md5ish(INSERT);
+    let mut out = Vec::new();
+    for f in frames.iter() {
+        let Parsed::Batch { statements, consistency, serial_consistency, timestamp, .. } = &f.parsed else {
+            ctx.fail("the node could not parse the BATCH frame");
+            out.push("unparsable-batch-body".to_string());
+            continue;
+        };
+        if statements.len() != n {
+            ctx.fail(format!("BATCH frame carries {} statements, the caller's batch has {n} (truncated / padded)", statements.len()));
+        }
+        for (i, st) in statements.iter().enumerate() {
+            let ok = match st {
+                crate::mocknode::BatchStmt::Prepared(id, v) => is_prep(i) && *id == want_id && v.len() == 2,
+                crate::mocknode::BatchStmt::Query(t, v) => !is_prep(i) && t == TEXT2 && v.is_empty(),
+            };
+            if !ok {
+                ctx.fail(format!("statement {i} of the BATCH frame is not statement {i} of the caller's batch"));
+                break;
+            }
+        }
+        let want_cons = spec_cons_code(cons.unwrap_or(Consistency::LocalQuorum));
+        let want_serial = match serial { Some(s) => s, None => Some(SerialConsistency::LocalSerial) }.map(spec_serial_code);
+        if *consistency != want_cons || *serial_consistency != want_serial || *timestamp != ts || (f.flags & 0x02 != 0) != tracing {
+            ctx.fail(format!("BATCH of {n} statements carries consistency {consistency:#06x} / serial {serial_consistency:?} / timestamp {timestamp:?} / tracing {}; the caller set {cons:?} / {serial:?} / {ts:?} / {tracing}", f.flags & 0x02 != 0));
+        }
+        out.push(format!(
+            "0d:{}:{}:{}:{}:n={}:len={}:fnv={}",
+            consistency,
+            serial_consistency.map(|s| s.to_string()).unwrap_or("-".into()),
+            (f.flags >> 1) & 1,
+            timestamp.map(|s| s.to_string()).unwrap_or("-".into()),
+            statements.len(),
+            f.body.len(),
+            fnv1a(&f.body)
+        ));
+    }
+    let head = match &r { Ok(()) => "ok".to_string(), Err(e) => format!("err:{e}") };
+    format!("{head} frames={} {}", frames.len(), out.join(" ")).trim_end().to_owned()
+}
+
+fn generate_b(rng: &mut Rng, tier: Tier, emit: &mut dyn FnMut(String)) {
+    let ids = ids_token();
+    // the boundary of the guard, from both sides, for every statement mix; 131071 / 131072 = what an `as u16` would turn
+    // into 65535 / 0
+    for n in [65535usize, 65536] {
+        for (mode, via) in [("u", "s"), ("p", "s"), ("m", "s"), ("p", "c")] {
+            emit(format!("glueb {n} {mode} {via} N D N 0 {ids}"));
+        }
+    }
+    for (n, mode) in [(0usize, "u"), (1, "p"), (65534, "m"), (65537, "u"), (65537, "p"), (131071, "u"), (131072, "m"), (70000, "p")] {
+        emit(format!("glueb {n} {mode} s Two Serial -77 1 {ids}"));
+    }
+    let k = if tier == Tier::Quick { 10 } else { 80 };
+    for _ in 0..k {
+        let n = match rng.below(6) {
+            0 => 65535,
+            1 => 65536,
+            2 => 65536 + rng.below(3000) as usize,
+            3 => 65535 - rng.below(3000) as usize,
+            _ => rng.below(300) as usize,
+        };
+        let mode = *rng.pick(&["u", "p", "m"]);
+        let via = if mode == "p" && rng.bool() { "c" } else { "s" };
+        emit(format!(
+            "glueb {n} {mode} {via} {} {} {} {} {ids}",
+            if rng.bool() { "N" } else { *rng.pick(&CONS_NAMES[..8]) },
+            rng.pick(&["D", "N", "Serial", "LocalSerial"]),
+            if rng.bool() { "N".to_string() } else { rng.i64_boundary().to_string() },
+            rng.below(2)
+        ));
+    }
+}
+
 pub(super) fn generate(rng: &mut Rng, tier: Tier, emit: &mut dyn FnMut(String)) {
     let ids = ids_token();
+    generate_b(rng, tier, emit);
     // (op, via) combinations
     let mut combos: Vec<(String, &str)> = Vec::new();
     for k in ["unpaged", "page", "iter", "pages"] {
